@@ -46,6 +46,7 @@ def jobs(tier, seed):
                     'opts': {'mag_range': (-6, 9)}})
     for sym_rate in (False, True):
         out.append({'fn': 'price_rate', 'cfg': {'sym_rate': sym_rate}, 'opts': {'mag_range': (-6, 9)}})
+    out.append({'fn': 'price_sequence', 'cfg': {}})
     out.append({'fn': 'money_rate', 'cfg': {'um': '1', 'amt': '1.25', 'mode': 'ROUND_HALF_EVEN', 'flav': 'dec',
                                             'pair': ['EUR', 'USD'], 'canary': True}, 'canary': True})
     LAST_CONFIG_INFO.clear()
@@ -216,3 +217,53 @@ def price_rate(E, cfg):
         E.check(r.unit is d[exact_same_mass[0]], 'price-rate-prefers-same-mass-unit', key='price-rate:unit-same-mass',
                 info=info)
     E.observe('res', r.amount)
+
+
+def price_sequence(E, cfg):
+    """two applications in one process: the second must not be influenced by the first"""
+    from decimalfp import Decimal
+    from quantity import Quantity, QuantityError
+    from quantity.money import ExchangeRate, Money
+    d = _catalogue()
+    p = E.rational('p', 'dec')
+    r_eu = ExchangeRate(d['eur'], 1, d['usd'], Decimal('1.25'))
+    r_eh = ExchangeRate(d['eur'], 1, d['hkd'], Decimal('8.395'))
+    r_uh = ExchangeRate(d['usd'], 1, d['hkd'], Decimal('7.8'))
+    seqs = ['div-then-mismatch', 'mul-then-mismatch', 'mul-then-other-rate', 'money-then-mismatch', 'repeat']
+    seq = E.choice('seq', seqs)
+    if seq == 'div-then-mismatch':
+        first = Quantity(p, d['USD/lb']) / r_eu
+        E.check(first.unit is d['EUR/kg'] or first.unit is d['EUR/g'], 'seq-first-ok')
+        C.expect_raises(E, lambda: Quantity(p, d['USD/lb']) / r_eh, QuantityError, 'seq-div-mismatch-after-match-rejected')
+    elif seq == 'mul-then-mismatch':
+        first = Quantity(p, d['EUR/kg']) * r_eh
+        E.check(first.unit is d['HKD/kg'], 'seq-first-ok')
+        C.expect_raises(E, lambda: Quantity(p, d['EUR/kg']) * r_uh, QuantityError, 'seq-mul-mismatch-after-match-rejected')
+        C.expect_raises(E, lambda: Quantity(p, d['HKD/kg']) * r_eh, QuantityError, 'seq-mul-term-currency-price-rejected')
+    elif seq == 'mul-then-other-rate':
+        first = Quantity(p, d['EUR/kg']) * r_eh
+        r2 = ExchangeRate(d['eur'], 1, d['hkd'], Decimal('9.5'))
+        second = Quantity(p, d['EUR/kg']) * r2
+        E.check(second.unit is d['HKD/kg'] and second.amount == p * Fraction('9.5'), 'seq-second-rate-used',
+                key='price-seq:stale-rate')
+        third = Quantity(p, d['EUR/g']) * r_eh
+        E.check(third.amount / _PER_UNIT(d, third.unit) == p * Fraction('8.395') / Fraction(1, 1000),
+                'seq-other-price-unit', key='price-seq:other-unit')
+    elif seq == 'money-then-mismatch':
+        m = Money(p, d['eur'])
+        first = m * r_eu
+        E.check(first.unit is d['usd'], 'seq-first-ok')
+        C.expect_raises(E, lambda: Money(p, d['hkd']) * r_eu, ValueError, 'seq-money-mismatch-after-match-rejected')
+        C.expect_raises(E, lambda: m / r_eu, ValueError, 'seq-money-div-unit-currency-rejected')
+    else:
+        a = Quantity(p, d['HKD/kg']) / r_eh
+        b = Quantity(p, d['HKD/kg']) / r_eh
+        E.check(a.unit is b.unit and a.amount == b.amount, 'seq-repeat-equal', key='price-seq:repeat')
+        E.check(a.unit is d['EUR/kg'] and a.amount == p / Fraction('8.395'), 'seq-repeat-value', key='price-seq:repeat-value')
+
+
+def _PER_UNIT(d, unit):
+    for k, v in _PER.items():
+        if d[k] is unit:
+            return v
+    raise AssertionError('unit not in catalogue')
